@@ -7,6 +7,7 @@ are exercised on the real agents by the per-run audit, not proved.
 -/
 import Bourse.Model.Agents
 import Bourse.Lemmas.PriceHelpers
+import Bourse.Lemmas.F64Prices
 
 namespace Bourse.Props.C16
 open Bourse
@@ -211,5 +212,55 @@ example :
     Helpers.buyPrice (201/2) (some (7/4)) 2 = 98 ∧ Helpers.sellPrice (201/2) (some (7/4)) 2 = 104 ∧
     Helpers.buyPrice (201/2) (some 1000) 2 = 0 ∧ Helpers.sellPrice (201/2) none 2 = 4294967294 ∧
     Helpers.sellPrice (201/2) (some 5000000000) 7 = 4294967292 := by decide +kernel
+
+/-! ### The same quotes in the arithmetic the Rust code performs: correctly rounded binary64
+
+`Model/F64.lean` models `f64` (`rnd` = round to nearest, ties to even, 53-bit significand, subnormals,
+overflow to infinity; compared with the hardware on every run) and `Model/FloatAgents.lean` the helpers
+of `common.rs` over it. The mid-price an agent observes is a half-integer `k/2` with `k ≤ 2·Price::MAX`
+(`bid + 0.5·(ask − bid)` of `u32` touch prices, exact in `f64`). -/
+
+/-- The rounding function is monotone, -/
+theorem f64_rounding_monotone {x y : Rat} (h : x ≤ y) : F64.le (F64.rnd x) (F64.rnd y) := F64.rnd_mono h
+
+/-- fixes half-integers below `2^53` (every mid-price and every price), -/
+theorem f64_half_integers_exact (k : Nat) (hk : k < 9007199254740992) :
+    F64.rnd ((k : Rat) / 2) = .fin ((k : Rat) / 2) := F64.rnd_half k hk
+
+/-- and in the normal range is within relative distance `2^-53` of the exact value. -/
+theorem f64_rounding_error {x : Rat} (hx : 0 < x) (hlo : F64.pow2 (-1022) ≤ x) (hhi : x < F64.pow2 1023) :
+    ∃ y : Rat, F64.rnd x = .fin y ∧ |y - x| ≤ x * F64.pow2 (-53) := F64.rnd_err hx hlo hhi
+
+/-- **Buy quotes, in `f64`**: for EVERY sample `d` of the price distribution (finite of either sign,
+infinite, NaN), every tick size and every observed mid-price `k/2 ∈ [0, Price::MAX]`, the price
+`place_buy_limit_order(_market)` computes in binary64 is on the tick grid and at or below the mid. -/
+theorem buy_price_valid_f64 (k t : Nat) (ht : 0 < t) (htm : t ≤ 4294967295) (hk : k ≤ 8589934590) (d : F) :
+    FAgents.buyPrice (.fin ((k : Rat) / 2)) d t % t = 0 ∧
+    (FAgents.buyPrice (.fin ((k : Rat) / 2)) d t : Rat) ≤ (k : Rat) / 2 :=
+  FAgents.buyPrice_valid k t ht htm hk d
+
+/-- **Sell quotes, in `f64`**: for every non-NaN sample, every tick size and every observed mid-price
+at least one tick below `Price::MAX`, the price `place_sell_limit_order(_market)` computes in binary64
+(with the grid repair after the clamp) is on the tick grid and at or above the mid. -/
+theorem sell_price_valid_f64 (k t : Nat) (ht : 0 < t) (htm : t ≤ 4294967295) (hk : k + 2 * t ≤ 8589934590)
+    (d : F) (hd : d ≠ .nan) :
+    FAgents.sellPrice (.fin ((k : Rat) / 2)) d t % t = 0 ∧
+    (k : Rat) / 2 ≤ (FAgents.sellPrice (.fin ((k : Rat) / 2)) d t : Rat) :=
+  FAgents.sellPrice_valid k t ht htm hk d hd
+
+/-- A sell quote is on the grid for every sample whatsoever, so the `unwrap()` of its placement never
+aborts. -/
+theorem sell_price_on_grid_f64 (mid d : F) (t : Nat) : FAgents.sellPrice mid d t % t = 0 :=
+  FAgents.sellPrice_grid mid d t
+
+/-- Concrete `f64` instances by kernel evaluation: tick 2, mid 100.5; a sample that is not dyadic
+(0.1 = 0x3FB999999999999A), the clamp at both ends, NaN. -/
+example :
+    FAgents.buyPrice (.fin (201/2)) (F64.ofBits 0x3FB999999999999A) 2 = 100 ∧
+    FAgents.sellPrice (.fin (201/2)) (F64.ofBits 0x3FB999999999999A) 2 = 102 ∧
+    FAgents.buyPrice (.fin (201/2)) .pinf 2 = 0 ∧ FAgents.sellPrice (.fin (201/2)) .pinf 2 = 4294967294 ∧
+    FAgents.buyPrice (.fin (201/2)) .nan 2 = 0 ∧
+    F64.add (F64.ofBits 0x3FB999999999999A) (F64.ofBits 0x3FC999999999999A) = F64.ofBits 0x3FD3333333333334 := by
+  decide +kernel
 
 end Bourse.Props.C16
